@@ -60,7 +60,7 @@ Definition c11_mismatches (cases : list c11_case) : list nat :=
 
 (* ---- specification oracle ---- *)
 Definition is_lifecycle (o : op) : bool :=
-  match o with OTraffic _ => false | _ => true end.
+  match o with OTraffic _ | ORtcp _ => false | _ => true end.
 
 (* was the latest Bind/Unbind of x before this point an Unbind?  (ops given newest first) *)
 Fixpoint last_was_unbind (x : Z) (before : list op) : bool :=
